@@ -99,6 +99,11 @@ Section Loud.
       exfalso. eapply enc_key_np; eauto.
     - destruct pn; discriminate.
     - destruct pn; [apply IHv|discriminate].
+    - bind_np; [|eapply elem_key_np; eauto].
+      bind_np; [discriminate|]. revert E0. apply mapM_no_panic.
+      intros e Hin. rewrite Forall_forall in H. apply H. exact Hin.
+    - destruct (_ && _ && _); [discriminate|].
+      bind_np; [discriminate|]. eapply IHv; eauto.
   Qed.
 
   (* an unregistered type among the looked-up ones makes the encoder return an error *)
@@ -157,7 +162,25 @@ Section Loud.
         rewrite He'. simpl. eauto.
     - contradiction.
     - simpl. destruct pn; [now apply (IHv 0%nat t0)|eauto].
+    - simpl. destruct Hin as [<-|Hin].
+      + rewrite (elem_key_none _ Hnone). simpl. eauto.
+      + destruct (elem_key reg t) eqn:El; simpl; eauto.
+        * apply in_flat_map in Hin. destruct Hin as [e [He Hin]].
+          rewrite Forall_forall in H. destruct (H _ He 0%nat _ Hin Hnone) as [e' He'].
+          destruct (mapM_err (ENC 0) es) as [e'' He''].
+          { intros x _. apply enc_no_panic. }
+          { exists e. split; [exact He|]. eauto. }
+          rewrite He''. simpl. eauto.
+        * exfalso. eapply elem_key_np; eauto.
+    - simpl. destruct (IHv pn t0 Hin Hnone) as [e He].
+      destruct (_ && _ && _); [eauto|]. rewrite He. simpl. eauto.
   Qed.
+
+  (* a pointer to a value of an unregistered defined container type is refused (F-C12i) *)
+  Lemma ptr_to_unregistered_def_err : forall d w pn,
+    fix_f fx = true -> fix_i fx = true ->
+    rm_lookup reg (TDef d (ty_of w)) = None -> ENC (S pn) (VDef d w) = Err E_UNKNOWN_TYPE.
+  Proof. intros d w pn Hf Hi H. simpl. rewrite Hf, Hi, H. reflexivity. Qed.
 End Loud.
 
 (* ------------------------------------------------------------------ completeness *)
@@ -175,6 +198,9 @@ Section Complete.
            (lits_of v).
   Definition registered (v : val) : Prop :=
     Forall (fun t => rm_lookup reg t <> None) (looked_up v).
+  (* every defined container type that occurs in the value is registered *)
+  Definition defs_registered (v : val) : Prop :=
+    Forall (fun t => rm_lookup reg t <> None) (defs_of v).
 
   Lemma lookup_name_some : forall t, rm_lookup reg t <> None -> exists k, lookup_name reg t = Ok k.
   Proof. intros t H. unfold lookup_name. destruct (rm_lookup reg t); [eauto|congruence]. Qed.
@@ -185,10 +211,11 @@ Section Complete.
   Qed.
 
   Lemma enc_succeeds_all : forall v,
-    wt env v = true -> registered v -> encodable v ->
+    wt env v = true -> registered v -> encodable v -> defs_registered v ->
     forall pn, (is_iface (ty_of v) = true -> pn = 0%nat) -> exists oi, ENC pn v = Ok oi.
   Proof.
-    induction v using val_ind'; intros Hwt Hr He pn Hpn; unfold registered, encodable in *; simpl in Hr, He.
+    induction v using val_ind'; intros Hwt Hr He Hd pn Hpn; unfold registered, encodable, defs_registered in *;
+      simpl in Hr, He, Hd.
     - inversion Hr; subst. inversion He as [|? ? [[j Hj] _] _]; subst. simpl in Hj.
       destruct (lookup_name_some _ H1) as [k Hk]. simpl. rewrite Hk. simpl. rewrite Hj. simpl. eauto.
     - inversion Hr; subst. inversion He as [|? ? [[j Hj] _] _]; subst. simpl in Hj.
@@ -201,10 +228,10 @@ Section Complete.
           try discriminate Hwt; constructor.
         - repeat (apply andb_true_iff in Hwt; destruct Hwt as [Hwt ?]). assumption.
         - repeat (apply andb_true_iff in Hwt; destruct Hwt as [Hwt ?]). eapply IH; eauto. }
-      apply Forall_flat_map in Hr'. apply Forall_flat_map in He.
+      apply Forall_flat_map in Hr'. apply Forall_flat_map in He. apply Forall_flat_map in Hd.
       destruct (mapM_all_ok (fun fv => do i <- ENC 0 (snd fv); Ok (fst fv, i)) fs) as [fields Hf].
-      { intros [f w] Hin. rewrite Forall_forall in H, Hw, Hr', He.
-        destruct (H _ Hin (Hw _ Hin) (Hr' _ Hin) (He _ Hin) 0%nat) as [oi Hoi]; [reflexivity|].
+      { intros [f w] Hin. rewrite Forall_forall in H, Hw, Hr', He, Hd.
+        destruct (H _ Hin (Hw _ Hin) (Hr' _ Hin) (He _ Hin) (Hd _ Hin) 0%nat) as [oi Hoi]; [reflexivity|].
         simpl in *. rewrite Hoi. simpl. eauto. }
       rewrite Hf. simpl. eauto.
     - inversion Hr; subst. destruct (lookup_name_some _ H1) as [k Hk]. unfold stripped in Hk.
@@ -219,10 +246,10 @@ Section Complete.
       { clear -Hwt. induction es as [|e es IH]; simpl in Hwt; constructor.
         - repeat (apply andb_true_iff in Hwt; destruct Hwt as [Hwt ?]). assumption.
         - repeat (apply andb_true_iff in Hwt; destruct Hwt as [Hwt ?]). now apply IH. }
-      apply Forall_flat_map in Hr'. apply Forall_flat_map in He.
+      apply Forall_flat_map in Hr'. apply Forall_flat_map in He. apply Forall_flat_map in Hd.
       destruct (mapM_all_ok (ENC 0) es) as [elems Hf].
-      { intros e Hin. rewrite Forall_forall in H, Hw, Hr', He.
-        apply (H _ Hin (Hw _ Hin) (Hr' _ Hin) (He _ Hin) 0%nat). reflexivity. }
+      { intros e Hin. rewrite Forall_forall in H, Hw, Hr', He, Hd.
+        apply (H _ Hin (Hw _ Hin) (Hr' _ Hin) (He _ Hin) (Hd _ Hin) 0%nat). reflexivity. }
       rewrite Hf. simpl. eauto.
     - inversion Hr as [|? ? Hn1 Hr']; subst. inversion Hr' as [|? ? Hn2 _]; subst.
       destruct (elem_key_some _ Hn1) as [kk Hk]. destruct (elem_key_some _ Hn2) as [vk Hv].
@@ -239,13 +266,14 @@ Section Complete.
         - repeat (apply andb_true_iff in Hwt; destruct Hwt as [Hwt ?]). simpl.
           apply ty_eqb_eq in H2. rewrite H2. auto.
         - repeat (apply andb_true_iff in Hwt; destruct Hwt as [Hwt ?]). now apply IH. }
-      apply Forall_flat_map in Hr''. apply Forall_flat_map in He.
+      apply Forall_flat_map in Hr''. apply Forall_flat_map in He. apply Forall_flat_map in Hd.
       destruct (mapM_all_ok (fun kv => do i <- ENC 0 (snd kv); do jk <- enc_key JK kenc (fst kv); Ok (jk, i)) kvs)
         as [entries Hf].
-      { intros [a b] Hin. rewrite Forall_forall in H, Hw, Hr'', He.
+      { intros [a b] Hin. rewrite Forall_forall in H, Hw, Hr'', He, Hd.
         destruct (H _ Hin) as [_ Hb]. destruct (Hw _ Hin) as [Hwa [Hba Hwb]].
-        specialize (He _ Hin). apply Forall_app in He. destruct He as [Hea Heb]. simpl in *.
-        destruct (Hb Hwb (Hr'' _ Hin) Heb 0%nat) as [oi Hoi]; [reflexivity|].
+        specialize (He _ Hin). apply Forall_app in He. destruct He as [Hea Heb].
+        specialize (Hd _ Hin). apply Forall_app in Hd. destruct Hd as [_ Hdb]. simpl in *.
+        destruct (Hb Hwb (Hr'' _ Hin) Heb Hdb 0%nat) as [oi Hoi]; [reflexivity|].
         rewrite Hoi. simpl.
         destruct (key_shape _ _ Hwa Hba) as [[bb [l [Ea _]]]|[n [bb [l [Ea _]]]]]; subst a; simpl in *;
           inversion Hea as [|? ? [_ [jk Hjk]] _]; subst; simpl in Hjk; rewrite Hjk; simpl; eauto. }
@@ -255,6 +283,25 @@ Section Complete.
     - simpl in Hwt. apply andb_true_iff in Hwt. destruct Hwt as [Hi Hwt].
       apply andb_true_iff in Hwt. destruct Hwt as [Hni Hwt]. apply negb_true_iff in Hni.
       rewrite (Hpn Hi). simpl. apply IHv; auto; intros Hc; congruence.
+    - inversion Hr as [|? ? Hn Hr']; subst. destruct (elem_key_some _ Hn) as [kk Hk].
+      simpl. rewrite Hk. simpl.
+      rewrite wt_array in Hwt. apply andb_true_iff in Hwt. destruct Hwt as [_ Hwt].
+      assert (Hw : Forall (fun e => wt env e = true) es).
+      { clear -Hwt. induction es as [|e es IH]; simpl in Hwt; constructor.
+        - repeat (apply andb_true_iff in Hwt; destruct Hwt as [Hwt ?]). assumption.
+        - repeat (apply andb_true_iff in Hwt; destruct Hwt as [Hwt ?]). now apply IH. }
+      apply Forall_flat_map in Hr'. apply Forall_flat_map in He. apply Forall_flat_map in Hd.
+      destruct (mapM_all_ok (ENC 0) es) as [elems Hf].
+      { intros e Hin. rewrite Forall_forall in H, Hw, Hr', He, Hd.
+        apply (H _ Hin (Hw _ Hin) (Hr' _ Hin) (He _ Hin) (Hd _ Hin) 0%nat). reflexivity. }
+      rewrite Hf. simpl. eauto.
+    - simpl in Hwt. apply andb_true_iff in Hwt. destruct Hwt as [Hct Hwt].
+      inversion Hd as [|? ? Hk Hd']; subst.
+      destruct (rm_lookup reg (TDef d (ty_of v))) as [k|] eqn:Ek; [|congruence].
+      simpl. rewrite Ek, andb_false_r.
+      destruct (IHv Hwt Hr He Hd' pn) as [oi Hoi].
+      { intro Hc. destruct (ty_of v); discriminate. }
+      rewrite Hoi. simpl. eauto.
   Qed.
 End Complete.
 
